@@ -80,7 +80,7 @@ func WrappedKey(label string) keytypes.WrappedConsKey {
 }
 
 // ---------------------------------------------------------------------------------------------
-// canonical numbers: JSON int when |n| < 2^31, decimal string otherwise (matches spec/Num)
+// canonical numbers: every amount is a decimal string (matches spec/Num under the override)
 
 type Num struct{ b *big.Int }
 
@@ -100,15 +100,10 @@ func NB(b *big.Int) Num   { return Num{new(big.Int).Set(b)} }
 func N64(i int64) Num     { return Num{big.NewInt(i)} }
 func NU64(i uint64) Num   { return Num{new(big.Int).SetUint64(i)} }
 func (n Num) String() string { return n.b.String() }
+// amounts are always logged as decimal strings (see spec/Num.tla)
 func (n Num) MarshalJSON() ([]byte, error) {
 	if n.b == nil {
-		return []byte("0"), nil
-	}
-	if n.b.IsInt64() {
-		v := n.b.Int64()
-		if v < (1<<31) && v > -(1<<31) {
-			return []byte(n.b.String()), nil
-		}
+		return []byte(`"0"`), nil
 	}
 	return []byte(`"` + n.b.String() + `"`), nil
 }
@@ -278,8 +273,23 @@ func NewWorld(cfg GenCfg) *World {
 		genAccs = append(genAccs, &evmostypes.EthAccount{BaseAccount: base, CodeHash: common.BytesToHash(evmtypes.EmptyCodeHash).Hex()})
 		balances = append(balances, banktypes.Balance{Address: base.GetAddress().String(), Coins: sdk.NewCoins(sdk.NewCoin(utils.BaseDenom, funds))})
 	}
+	// model ids follow store-key order: o1 < o2 < ... by bech32 string, s1 < s2 < ... by staker id
+	opKeys := make([]*ethsecp256k1.PrivKey, cfg.NOperators)
+	for i := range opKeys {
+		opKeys[i] = EthKey(fmt.Sprintf("operator%d", i+1))
+	}
+	sort.Slice(opKeys, func(i, j int) bool {
+		return sdk.AccAddress(opKeys[i].PubKey().Address().Bytes()).String() < sdk.AccAddress(opKeys[j].PubKey().Address().Bytes()).String()
+	})
+	stKeys := make([]*ethsecp256k1.PrivKey, cfg.NStakers)
+	for i := range stKeys {
+		stKeys[i] = EthKey(fmt.Sprintf("staker%d", i+1))
+	}
+	sort.Slice(stKeys, func(i, j int) bool {
+		return strings.ToLower(AddrOf(stKeys[i]).String()) < strings.ToLower(AddrOf(stKeys[j]).String())
+	})
 	for i := 0; i < cfg.NOperators; i++ {
-		k := EthKey(fmt.Sprintf("operator%d", i+1))
+		k := opKeys[i]
 		w.OpKeys = append(w.OpKeys, k)
 		a := sdk.AccAddress(k.PubKey().Address().Bytes())
 		w.OpAddrs = append(w.OpAddrs, a)
@@ -287,7 +297,7 @@ func NewWorld(cfg GenCfg) *World {
 		addAcc(k)
 	}
 	for i := 0; i < cfg.NStakers; i++ {
-		k := EthKey(fmt.Sprintf("staker%d", i+1))
+		k := stKeys[i]
 		w.StKeys = append(w.StKeys, k)
 		a := AddrOf(k)
 		w.StAddrs = append(w.StAddrs, a)
